@@ -4,6 +4,8 @@ import glob, json, os, re
 HERE = os.path.dirname(os.path.dirname(os.path.abspath(__file__)))
 _FR = json.load(open(os.path.join(HERE, 'seeded', 'FIRST_RUN.json')))
 FIRST = dict(_FR['missed'], **_FR.get('batch2_missed', {}))
+FIRST.update(_FR.get('batch3_missed', {}))
+_MISSED_ALL = set(_FR.get('batch2_first_run', {}).get('missed', [])) | set(_FR.get('batch3_first_run', {}).get('missed', [])) | set(_FR['missed'])
 rows = []
 for d in sorted(glob.glob(os.path.join(HERE, 'seeded', 'C*', '*'))):
     if not os.path.isdir(d):
@@ -31,11 +33,12 @@ for d in sorted(glob.glob(os.path.join(HERE, 'seeded', 'C*', '*'))):
     what = re.sub(r'\s+', ' ', meta.get('summary', ''))[:150]
     suite = ver.get('suite', '')
     m = re.search(r'regressed (\d+)', suite)
-    rows.append((cid, what, 'reported' if res.get('exit') == 1 else 'NOT reported', '; '.join(by), ('missed → ' + FIRST[cid]) if cid in FIRST else 'caught',
+    rows.append((cid, what, 'reported' if res.get('exit') == 1 else 'NOT reported', '; '.join(by), ('missed → ' + FIRST[cid]) if cid in FIRST else ('missed (no strengthening yet)' if cid in _MISSED_ALL else 'caught'),
                  ('suite ok' if m and m.group(1) == '0' else ('suite: ' + suite[:40] if suite and suite != 'skipped' else 'suite run by the author only'))))
 def _batch(cid):
-    return 2 if cid.split('/')[1] in ('4', '5') else 1
-for bno in (1, 2):
+    k = cid.split('/')[1]
+    return 3 if k == '6' else 2 if k in ('4', '5') else 1
+for bno in (1, 2, 3):
     sub = [r for r in rows if _batch(r[0]) == bno]
     print(f'Batch {bno}: {len(sub)} changes, {sum(1 for r in sub if r[4] == "caught")} reported by the first run, {sum(1 for r in sub if r[4] != "caught")} missed at first; '
           f'{sum(1 for r in sub if r[2] == "reported")} reported today.\n')
